@@ -1,7 +1,7 @@
 """Which contract serves which property, and the trusted base per property."""
 import importlib
 
-MODULES = ['contracts.c_nodes_simple', 'contracts.c_nodes_buffered', 'contracts.c_nodes_keyed', 'contracts.c_emit', 'contracts.c_async', 'contracts.c_nodes_combine', 'contracts.c_kafka', 'contracts.c_loop', 'contracts.c_textfile', 'contracts.c_sources', 'contracts.c_topology', 'contracts.c_dask', 'contracts.c_df_reductions', 'contracts.c_df_windows', 'contracts.c_df_rolling', 'contracts.c_lemmas', 'contracts.c_orderedset', 'contracts.c_emit_public']
+MODULES = ['contracts.c_nodes_simple', 'contracts.c_nodes_buffered', 'contracts.c_nodes_keyed', 'contracts.c_emit', 'contracts.c_async', 'contracts.c_nodes_combine', 'contracts.c_kafka', 'contracts.c_loop', 'contracts.c_textfile', 'contracts.c_sources', 'contracts.c_topology', 'contracts.c_dask', 'contracts.c_df_reductions', 'contracts.c_df_windows', 'contracts.c_df_rolling', 'contracts.c_lemmas', 'contracts.c_orderedset', 'contracts.c_emit_public', 'contracts.c_df_wiring']
 
 CONTRACTS = []      # (module, class name, props)
 for m in MODULES:
@@ -49,6 +49,6 @@ def _bounded(pid, script='df_enum.py', what='real accumulator vs pandas on the c
     return run
 
 
-for _pid in ('C06', 'C07', 'C11'):
+for _pid in ('C06', 'C07', 'C11', 'C12'):
     EXTRA_CHECKS[_pid] = [_bounded(_pid)]
 EXTRA_CHECKS['C01'] = [_bounded('C01', 'pure_enum.py', 'the real helper disagrees with its list-level meaning on this concrete input')]
